@@ -9,7 +9,7 @@ def make_plan(prop, rng, idx, tier, variant="asan"):
     configurations are separate batches, chosen by the run index."""
     if prop == "C12":
         faults = (idx % 5) >= 3
-        damaged = (idx % 20) == 7
+        damaged = (idx % 20) in (7, 17)
         plan = hist.gen_history(rng, "C12", faults=faults, reuse=(variant == "plain"), damaged=damaged)
         plan["knobs"]["scon_fatal"] = 0
         if variant == "plain":
